@@ -37,6 +37,7 @@ def run(ctx: Ctx) -> None:
     _memo.rule_paste_incomplete(ctx, ['graphiq/solvers/time_reversed_solver.py', 'graphiq/backends/stabilizer/functions/stabilizer.py'])
     _memo.rule_negative_start(ctx, ['graphiq/solvers/time_reversed_solver.py', 'graphiq/backends/stabilizer/functions/stabilizer.py'])
     _memo.rule_elim_no_pivot(ctx, ['graphiq/solvers/time_reversed_solver.py', 'graphiq/backends/stabilizer/functions/stabilizer.py'])
+    _memo.rule_subject_drift(ctx, ['graphiq/solvers/time_reversed_solver.py', 'graphiq/backends/stabilizer/functions/stabilizer.py'])
     repo = ctx.repo
     handled = mirror.rule_mirror(ctx)
     mirror.rule_guarded_first(ctx)
